@@ -121,8 +121,14 @@ Definition inside (l : lkey) : bool := negb (String.eqb (hd "" l) "..").
 Definition rel_loc (p : string) : lkey :=
   let u := unq p in if is_abs u then ".." :: "/" :: norm_comps u else norm_comps u.
 
-(* wire convention for absolute record paths: "/x/y" = <parent of the root>/x/y *)
-Definition abs_loc (p : string) : lkey := ".." :: norm_comps p.
+(* wire convention for absolute record paths: "/x/y" = <parent of the root>/x/y; the root itself is that parent's entry
+   "repo", so "/repo/u/f" is the file u/f BELOW the root (a direct ingest of a file the datastore does not own but that
+   lives under its root) *)
+Definition abs_loc (p : string) : lkey :=
+  match norm_comps p with
+  | c :: rest => if String.eqb c "repo" then rest else ".." :: c :: rest
+  | [] => [".."]
+  end.
 
 (* StoredFileInfo.file_location(...).uri *)
 Definition loc (p : string) : lkey :=
@@ -133,7 +139,8 @@ Definition abs_after_decode (p : string) : bool := has_upper_escape p && is_abs 
 
 (* df0ecd0: FileDatastore builds the location of a new artifact with trusted_path=False, so Location checks that the
    RESOLVED (decoded, normalised) location of the template text is under the root before anything is written.
-   `chk` = that check is in force (false = the code before df0ecd0, kept for the _refuted_without_fix witnesses). *)
+   `chk` = that check is in force (false = the code before df0ecd0, kept for the _refuted_without_fix witnesses).
+   `rchk` (step_v) = the same check on RECORD paths at use time (5539e78). *)
 Definition checked (chk : bool) (p : string) : bool := negb chk || inside (rel_loc (stage_a p)).
 Definition refuse_location (chk : bool) (p : string) : bool := abs_after_decode p || negb (checked chk p).
 
@@ -202,7 +209,8 @@ Inductive op :=
 | EmptyTrash
 | Prune (ids : list N)
 | RemoveRun (ids : list N)
-| Ext (l : lkey) (c : option N).      (* the ENVIRONMENT creates / replaces / removes a file (not a datastore operation) *)
+| Ext (l : lkey) (c : option N)       (* the ENVIRONMENT creates / replaces / removes a file (not a datastore operation) *)
+| Reorder (ids : list N).            (* the DATABASE returns the record rows in another order (no observable changes) *)
 
 Inductive err := Conflict | NotFound | ValueErr | KeyErr | RuntimeErr.
 Inductive outcome := Done | Refused (e : err).
@@ -253,13 +261,50 @@ Definition empty_trash (s : state) : state :=
           (filter (fun id => negb (has_rec s id)) (trash s))
           (delete_all s (trashed_recs s) (fs s)).
 
+(* 5539e78: StoredFileInfo.file_location builds the location of a RELATIVE record path with trusted_path=False, so
+   Location's containment check runs each time a record is turned into a location.  In emptyTrash that happens for a row
+   whose artifact is about to be removed (after the keep test, before _delete_artifact), OUTSIDE the try block: the
+   ValueError leaves the loop and the bridge's context manager, so no record / trash row is removed, while the artifacts
+   of the rows processed before it are gone.  The order of the rows is the database's (see Reorder). *)
+Definition poison (s : state) (p : string) : bool := deletes s p && negb (inside (loc p)).
+
+Fixpoint delete_upto (s : state) (rows : list (N * string)) (f : list (lkey * N)) : list (lkey * N) * bool :=
+  match rows with
+  | [] => (f, true)
+  | r :: rest => if poison s (snd r) then (f, false)
+                 else delete_upto s rest (if deletes s (snd r) then fdel f (loc (snd r)) else f)
+  end.
+
+(* rchk = the record-location check is in force (false = the code before 5539e78) *)
+Definition empty_trash_v (rchk : bool) (s : state) : state * outcome :=
+  if rchk
+  then match delete_upto s (trashed_recs s) (fs s) with
+       | (f, true) => (mkState (filter (fun r => negb (memN (fst r) (trash s))) (recs s))
+                               (live s)
+                               (filter (fun id => negb (has_rec s id)) (trash s))
+                               f, Done)
+       | (f, false) => (with_fs s f, Refused ValueErr)
+       end
+  else (empty_trash s, Done).
+
+(* the rows of `ids` first (in that order), then the rows whose relative path resolves outside the root, then the rest *)
+Fixpoint pick_rows (ids : list N) (rows : list (N * string)) : list (N * string) * list (N * string) :=
+  match ids with
+  | [] => ([], rows)
+  | id :: r => let (a, b) := partition (fun x => N.eqb (fst x) id) rows in
+               let (a', b') := pick_rows r b in ((a ++ a')%list, b')
+  end.
+Definition outside_row (r : N * string) : bool := negb (is_abs (snd r)) && negb (inside (loc (snd r))).
+Definition reorder (rows : list (N * string)) (ids : list N) : list (N * string) :=
+  let (a, b) := pick_rows ids rows in (a ++ filter outside_row b ++ filter (fun r => negb (outside_row r)) b)%list.
+
 (* bridge.moveToTrash(check(refs)) *)
 Definition do_trash (s : state) (ids : list N) : state :=
   let known := filter (fun id => memN id ids) (live s) in
   mkState (recs s) (filter (fun id => negb (memN id ids)) (live s)) (known ++ trash s) (fs s).
 
 (* ---- one operation ---------------------------------------------------------------------------------- *)
-Definition step_v (chk : bool) (s : state) (x : op) : state * outcome :=
+Definition step_v (chk rchk : bool) (s : state) (x : op) : state * outcome :=
   match x with
   | Put id fr ext c =>
       match fr with
@@ -316,13 +361,14 @@ Definition step_v (chk : bool) (s : state) (x : op) : state * outcome :=
       then (with_fs s (fdel (fs s) l), Refused Conflict)
       else (add_recs s (map (fun m => (fst m, z ++ "#zip-path=" ++ snd m)) members) (fset (fs s) l c), Done)
   | Trash ids => (do_trash s ids, Done)
-  | EmptyTrash => (empty_trash s, Done)
-  | Prune ids | RemoveRun ids => (empty_trash (do_trash s ids), Done)
+  | EmptyTrash => empty_trash_v rchk s
+  | Prune ids | RemoveRun ids => empty_trash_v rchk (do_trash s ids)
   | Ext l c => (with_fs s (match c with Some v => fset (fs s) l v | None => fdel (fs s) l end), Done)
+  | Reorder ids => (mkState (reorder (recs s) ids) (live s) (trash s) (fs s), Done)
   end.
 
 (* the code as it is *)
-Definition step : state -> op -> state * outcome := step_v true.
+Definition step : state -> op -> state * outcome := step_v true true.
 
 Definition run (s : state) (h : list op) : state := fold_left (fun st x => fst (step st x)) h s.
 
@@ -374,6 +420,13 @@ Definition put_coherent (x : op) : bool :=
       && lkey_eqb (loc (join_slash (target_loc p ext))) (target_loc p ext)
   | _ => true
   end.
+
+(* guard 6: no dataset is in dataset_location and dataset_location_trash at the same time *)
+Definition live_trash_disjoint (s : state) : bool := forallb (fun id => negb (memN id (trash s))) (live s).
+
+(* put: the checked text does not resolve to the root itself *)
+Definition put_nonroot (x : op) : bool :=
+  match x with Put _ (FOk p) _ _ => negb (lkey_eqb (rel_loc (stage_a p)) []) | _ => true end.
 
 (* the staging file a move ingest removes at the caller's request *)
 Definition moved_source (s : state) (x : op) (l : lkey) : bool :=
